@@ -156,6 +156,48 @@ theorem C03_broker_swap_from_loses_fee (w : Wallet) (fromTok toTok : String) (hn
           · left; field_simp; ring
           · right; refine ⟨?_, hd⟩; field_simp; ring
 
+/-- **a swap loses exactly the reported fee** (`swap_by_to`): the caller names the amount received; the wallet pays
+    `amount × price(to) / (1 − fee_rate) / price(from)` and the value lost is `fee × price(from)` with
+    `fee = paid × fee_rate`, again up to the snap-to-zero dust. -/
+theorem C03_broker_swap_to_loses_fee (w : Wallet) (fromTok toTok : String) (hne : fromTok ≠ toTok)
+    (amount feeRate pf pt v : Rat) (p : Prices) (r : SwapResult)
+    (hw : NonNeg w) (hpf : AList.get? p fromTok = some pf) (hpt : AList.get? p toTok = some pt)
+    (hv : specWallet p w = some v)
+    (h : swapByTo NumCtx.exact w false fromTok toTok amount p feeRate = .ok r) :
+    ∃ bf v', AList.get? w fromTok = some bf ∧ specWallet p r.wallet = some v' ∧ r.fee = r.fromAmount * feeRate ∧
+      (v' = v - r.fee * pf ∨ (v' - (v - r.fee * pf) = (r.fromAmount - bf) * pf ∧ |bf - r.fromAmount| < assetDust * bf)) := by
+  unfold swapByTo at h
+  by_cases hneg : amount < 0
+  · split at h <;> simp [hneg] at h
+  simp only [hneg, if_false] at h
+  split at h
+  · exact absurd h (by simp)
+  · rename_i hfee
+    simp only [hpf, hpt] at h
+    split at h
+    · exact absurd h (by simp)
+    · rename_i hpf0
+      unfold Wallet.debit at h
+      cases hbf : AList.get? w fromTok with
+      | none => simp [hbf] at h
+      | some bf =>
+        simp only [hbf, NumCtx.exact_mul, NumCtx.exact_div, NumCtx.exact_sub] at h
+        cases hs : assetSub NumCtx.exact bf (amount * pt / (1 - feeRate) / pf) false with
+        | none => simp [hs] at h
+        | some bf' =>
+          simp only [hs] at h
+          injection h with h
+          subst h
+          have hbf0 := nonneg_get w fromTok bf hw hbf
+          refine ⟨bf, _, rfl, swap_value p w fromTok toTok hne pf pt bf bf' _ v hpf hpt hbf hv, rfl, ?_⟩
+          have hpf0' : pf ≠ 0 := hpf0
+          have hfr : (1 : Rat) - feeRate ≠ 0 := by
+            have : feeRate < 1 := (not_not.mp hfee).2
+            linarith
+          rcases C03_wallet_sub_exact bf _ bf' hbf0 hs with rfl | ⟨rfl, _, hd⟩
+          · left; field_simp; ring
+          · right; refine ⟨?_, hd⟩; field_simp; ring
+
 /-- no balance becomes negative in a swap of a non-negative amount at non-negative prices -/
 theorem C03_broker_swap_from_nonneg (cx : NumCtx) (w : Wallet) (fromTok toTok : String)
     (amount feeRate : Rat) (p : Prices) (r : SwapResult) (hw : NonNeg w)
